@@ -116,6 +116,26 @@ def evalVerb (argv : List String) : Option ((List Rec → List Rec) × Option (L
     -- only if every accumulator is modelled
     if accs.any (fun a => (({} : Acc).emit a).isNone) then none
     pure (fun xs => (stats1 accs vfs gfs xs).getD [], none)
+  | "merge-fields" :: rest => do
+    let o ← parseOpts ["-a", "-f", "-r", "-c", "-o"] rest {}
+    if o.flags.any (fun f => f != "-k") then none
+    let accs ← (o.get "-a").map fun s => s.splitOn ","
+    if accs.any (fun a => (({} : Acc).emit a).isNone) then none
+    let keep := o.has "-k"
+    -- the last of -f/-r/-c on the command line selects the mode
+    let mode ← (o.vals.filter fun p => p.1 == "-f" || p.1 == "-r" || p.1 == "-c").getLast?
+    let out := Bytes.ofString ((o.get "-o").getD "")
+    match mode.1 with
+    | "-f" =>
+      if out.isEmpty then none
+      pure (List.filterMap (mergeByNames accs (fieldsOf mode.2) out keep), none)
+    | "-r" =>
+      if out.isEmpty then none
+      let cs ← (fieldsOf mode.2).mapM Regex.compileMiller
+      pure (List.filterMap (mergeByRegex accs cs out keep), none)
+    | _ =>
+      let cs ← (fieldsOf mode.2).mapM Regex.compileMiller
+      pure (List.filterMap (mergeCollapse accs cs keep), none)
   | "step" :: rest => do
     let o ← parseOpts ["-a", "-f", "-g"] rest {}
     if !o.flags.isEmpty then none
@@ -244,7 +264,7 @@ def verbs : Handler
         else match Rec.parseList impl with
           | some out => (lawFor (argvOf av) rs out).map fun w => ("-", w)
           | none => none
-      pure { model := impl, spec }
+      pure { model := impl, spec, unmodelled := true }
     | some (m, s) =>
       let mo := m rs
       -- floats computed by the model are compared by value with the implementation's text
